@@ -19,8 +19,19 @@ fn needs_dn_escape(v: &str) -> bool {
         || b.last().map_or(false, |c| *c == b' ')
 }
 
+/// malformed filters of the kinds unescaped user input produces
+const REJECTED: [&str; 6] = ["(a=(", "(((((((((((((((((((((((((((((((((((((((((a=b", "(a=b))", "(&(a=b)(c=d", "(a=\\zz)", "(|(a=*)(b=**))"];
+
 fn judge(rep: &Reporter, v: &str, evals: &AtomicU64, nontrivial: &AtomicU64) {
-    evals.fetch_add(1, Ordering::Relaxed);
+    // every 16th evaluation is preceded, on the same thread, by a round of filters that must be
+    // rejected: whatever the parser keeps between calls must not make it refuse good filters later
+    if evals.fetch_add(1, Ordering::Relaxed) % 16 == 0 {
+        for r in REJECTED {
+            if let Real::Accepted(f) = real_parse(r.as_bytes()) {
+                rep.violation("escape:malformed-filter-accepted", &format!("{:?} was accepted as {:?}", r, f), json!({"engine":"c09","value":r}));
+            }
+        }
+    }
     let replay = || json!({"engine":"c09","value_hex":crate::vcore::ber::hex(v.as_bytes()),"value":v});
     if needs_filter_escape(v) || needs_dn_escape(v) {
         nontrivial.fetch_add(1, Ordering::Relaxed);
@@ -175,6 +186,32 @@ pub fn run(tier: Tier) -> i32 {
             judge(&rep, &s, &evals, &nontrivial);
         });
     }
+    // one or two special characters at every position of values of 8..=40 characters (word-sized
+    // fast paths), with leading / trailing space variants
+    let specials = [" ", "#", ",", "\\", "*", "(", ")", "\0", "é", "+", "\"", "="];
+    let mut long_cases: Vec<String> = vec![];
+    for len in 8..=40usize {
+        for pos in 0..len {
+            for sp in specials {
+                let mut s: Vec<String> = (0..len).map(|k| ((b'a' + (k % 26) as u8) as char).to_string()).collect();
+                s[pos] = sp.to_string();
+                long_cases.push(s.concat());
+                if pos + 9 < len {
+                    s[pos + 9] = sp.to_string();
+                    long_cases.push(s.concat());
+                }
+                s[len - 1] = " ".to_string();
+                long_cases.push(s.concat());
+            }
+        }
+    }
+    for n in [64usize, 100, 255, 256, 1000, 5000, 70000] {
+        long_cases.push(format!("{} ", "x".repeat(n)));
+        long_cases.push(format!(" {}\\{}", "y".repeat(n), "z".repeat(n)));
+        long_cases.push(format!("{}*", "é".repeat(n)));
+    }
+    let nl = long_cases.len() as u64;
+    par_for(nl, |i| judge(&rep, &long_cases[i as usize], &evals, &nontrivial));
     // longer hand-picked values
     for s in ["Zoë (ops)", "名前(*)", "ćć*", " leading and trailing ", "#hash", "a,b+c=d", "James \"Jim\" Smith, III", "C:\\dir\\*"] {
         judge(&rep, s, &evals, &nontrivial);
@@ -182,7 +219,7 @@ pub fn run(tier: Tier) -> i32 {
     let c = cov(vec![
         ("evaluations", json!(evals.load(Ordering::Relaxed))),
         ("distinct_nontrivial", json!(nontrivial.load(Ordering::Relaxed))),
-        ("rule", json!("every string of length <= 2 over all 128 ASCII code points; every string of length 3..=L over the 22-symbol metacharacter alphabet {NUL, space, #, \", +, ',', ;, <, =, >, \\, *, (, ), /, a, Z, 0, DEL, é, €, 𐍈}; distinct by construction; non-trivial = needs filter or DN escaping")),
+        ("rule", json!("every string of length <= 2 over all 128 ASCII code points; every string of length 3..=L over the 22-symbol metacharacter alphabet {NUL, space, #, \", +, ',', ;, <, =, >, \\, *, (, ), /, a, Z, 0, DEL, é, €, 𐍈}; one or two special characters at every position of values of 8..=40 characters and long values to 70000; a round of malformed filters before every 16th evaluation on the same thread; distinct by construction; non-trivial = needs filter or DN escaping")),
         ("max_len_over_metacharacters", json!(maxlen)),
         ("strings_over_metacharacters", json!(total)),
         ("samples", json!(["*)(\\", " #", "a ", "é\0€"])),
